@@ -50,9 +50,9 @@ THOROUGH_PLAN = {"test_wikiprocess.py": 14, "test_parser.py": 4, "test_node_expa
 QUICK_PLAN = {
     "C01": {"test_parser.py": (4, [0, 1, 2, 3]), "test_node_expand.py": (1, [0])},
     "C19": {"test_parser.py": (4, [0, 1, 2, 3]), "test_node_expand.py": (1, [0])},
-    # every third test of the long file, in six worker processes
-    "C16": {"test_wikiprocess.py": (18, [2, 5, 8, 11, 14, 17])},
-    "C10": {"test_wikiprocess.py": (18, [2, 5, 8, 11, 14, 17]), "test_node_expand.py": (1, [0])},
+    # every fourth test of the long file, in five worker processes
+    "C16": {"test_wikiprocess.py": (20, [2, 6, 10, 14, 18]), "test_node_expand.py": (1, [0])},
+    "C10": {"test_wikiprocess.py": (20, [2, 6, 10, 14, 18]), "test_node_expand.py": (1, [0])},
 }
 NONE = "<None>"
 NONS = 9999
